@@ -201,6 +201,8 @@ func rewrite(src []byte, pkg string) ([]byte, []string, error) {
 	f.Name.Name = pkg
 	var decls []ast.Decl
 	var types []string
+	typeDecls := map[string]ast.Expr{}
+	var typeOrder []string
 	for _, d := range f.Decls {
 		if isPrefixDecl(d) {
 			continue
@@ -220,15 +222,8 @@ func rewrite(src []byte, pkg string) ([]byte, []string, error) {
 			if d.Tok == token.TYPE {
 				for _, s := range d.Specs {
 					ts := s.(*ast.TypeSpec)
-					switch t := ts.Type.(type) {
-					case *ast.StructType:
-						types = append(types, ts.Name.Name)
-					case *ast.Ident:
-						// type andExpr expr, type anyMatcher position
-						if t.Name == "expr" || t.Name == "position" {
-							types = append(types, ts.Name.Name)
-						}
-					}
+					typeDecls[ts.Name.Name] = ts.Type
+					typeOrder = append(typeOrder, ts.Name.Name)
 				}
 			}
 		case *ast.FuncDecl:
@@ -317,5 +312,24 @@ func rewrite(src []byte, pkg string) ([]byte, []string, error) {
 		return nil, nil, err
 	}
 	buf.Write(reset.Bytes())
+	// every declared type a composite literal can be written for: struct, array, slice and map
+	// types, and types defined in terms of such a type (type andExpr expr, type expr struct{...})
+	var literalType func(e ast.Expr, depth int) bool
+	literalType = func(e ast.Expr, depth int) bool {
+		switch t := e.(type) {
+		case *ast.StructType, *ast.ArrayType, *ast.MapType:
+			return true
+		case *ast.Ident:
+			if u, ok := typeDecls[t.Name]; ok && depth < 20 {
+				return literalType(u, depth+1)
+			}
+		}
+		return false
+	}
+	for _, name := range typeOrder {
+		if literalType(typeDecls[name], 0) {
+			types = append(types, name)
+		}
+	}
 	return buf.Bytes(), types, nil
 }
